@@ -1,20 +1,30 @@
-"""Unit `parser_core` -- C01 / C02 / C04 / C07 on the parser primitives and the grammar functions that
-touch tokens directly.
+"""Unit `parser_core` -- C01 / C02 / C04 / C07 on the WHOLE apollo-parser parser: every parser primitive, every grammar
+function, `document()` and the three entry points `Parser::parse / parse_type / parse_selection_set`.
 
 Extracted verbatim (crates/apollo-parser/src):
-  lexer/token_kind.rs : enum TokenKind
-  lexer/token.rs      : struct Token, Token::{kind, data, index}
-  limit.rs            : struct LimitTracker, LimitTracker::{new, check_and_increment, decrement}
-  parser/mod.rs       : enum PendingToken, Parser::{at, bump, skip_ignored, push_ignored, current, eat, limit_err,
-                        err_at_token, err, err_and_pop, expect, push_err, next_token, pop, push_token, start_node,
-                        start_root_node, checkpoint_node, peek, peek_token, expect_end_of_input, parse_type,
-                        parse_selection_set}
-  parser/grammar/ty.rs        : ty, standalone_ty, parse, named_type
-  parser/grammar/selection.rs : selection_set, field_set
-  parser/grammar/value.rs     : object_field
+  lexer/token_kind.rs              : enum TokenKind
+  lexer/token.rs                   : struct Token, Token::{kind, data, index}
+  limit.rs                         : struct LimitTracker, LimitTracker::{new, check_and_increment, decrement}
+  parser/generated/syntax_kind.rs  : enum SyntaxKind
+  parser/mod.rs                    : enum PendingToken, Parser::{new, at, bump, skip_ignored, push_ignored, current, eat, limit_err,
+                                     err_at_token, err, err_and_pop, expect, push_err, next_token, pop, push_token, start_node,
+                                     start_root_node, checkpoint_node, peek, peek_token, peek_data, expect_end_of_input, parse,
+                                     parse_type, parse_selection_set}
+  parser/grammar/*.rs              : all 66 grammar functions (name, alias, variable*, argument*, directive*, field*, selection*,
+                                     fragment*, operation*, ty*, value*, description, input*, enum*, union*, interface*, object*,
+                                     schema*, scalar*, extensions, select_definition, document)
+
+Contracts: every grammar function conserves the text (C02), keeps the recursion bookkeeping balanced and never above the limit (C04),
+never gains fuel (C01 termination) and, where a repetition loop depends on it, strictly consumes (`progress` clauses: what
+peek_while's "iteration must advance parsing" debug assertion demands, here for every input).  The combinators peek_while /
+peek_while_kind / parse_separated_list take `FnMut(&mut Parser)` closures (outside Verus): their calls are beta-reduced mechanically
+into the combinator's own loop (tools/verus_unit.py inline_combinators; frame check `peek_while_is_the_plain_loop` pins the loop).
+`document()` ends with the queue flushed and the input used up, so `Parser::parse` returns a tree whose text is the input.
 
 Ghost model (shims, trusted): Lexer = (rest(): text not yet produced, fuel(): strictly decreasing measure,
 limited(): the token limit was hit); SyntaxTreeBuilder = text(): concatenation of every token text handed to it.
+Still assumed: the Lexer contract (proved for Cursor::advance in unit `lexer`), validate_name never fires on Name tokens,
+peek_n / peek_token_n / peek_data_n (look-ahead on a clone of the lexer; results unconstrained), rowan.
 """
 from limits import UNIT as LIMITS_UNIT
 
@@ -30,23 +40,18 @@ pub assume_specification<T: Default>[ core::mem::take::<T> ](dest: &mut T) -> (r
     ensures r == *old(dest), call_ensures(T::default, (), *final(dest));
 
 // ---------------- shims (trusted; listed in the evidence) ----------------
-// SyntaxKind: only the variants the extracted bodies name; the tree *shape* is not modelled.
-#[derive(Clone, Copy, PartialEq, Eq, Structural)]
-#[allow(non_camel_case_types)]
-pub enum SyntaxKind { COMMENT, WHITESPACE, COMMA, ERROR, IDENT, BANG, L_BRACK, R_BRACK, L_CURLY, R_CURLY, COLON, EQ, DOLLAR,
-    LIST_TYPE, NAMED_TYPE, NAME, NON_NULL_TYPE, SELECTION_SET, OBJECT_FIELD,
-    INT_VALUE, INT, FLOAT_VALUE, FLOAT, STRING_VALUE, STRING, BOOLEAN_VALUE, true_KW, false_KW, NULL_VALUE, null_KW,
-    ENUM_VALUE, LIST_VALUE, OBJECT_VALUE, DEFAULT_VALUE }
+// SyntaxKind is EXTRACTED (parser/generated/syntax_kind.rs); the tree *shape* is not modelled.
 
 macro_rules! T {
-    [!] => { TokenKind::Bang }; ['['] => { TokenKind::LBracket }; [']'] => { TokenKind::RBracket };
-    ['{'] => { TokenKind::LCurly }; ['}'] => { TokenKind::RCurly }; [:] => { TokenKind::Colon };
-    [$] => { TokenKind::Dollar }; [=] => { TokenKind::Eq };
+    [!] => { TokenKind::Bang }; [$] => { TokenKind::Dollar }; [&] => { TokenKind::Amp }; [...] => { TokenKind::Spread }; [,] => { TokenKind::Comma };
+    [:] => { TokenKind::Colon }; [=] => { TokenKind::Eq }; [@] => { TokenKind::At }; ['('] => { TokenKind::LParen }; [')'] => { TokenKind::RParen };
+    ['['] => { TokenKind::LBracket }; [']'] => { TokenKind::RBracket }; ['{'] => { TokenKind::LCurly }; ['}'] => { TokenKind::RCurly }; [|] => { TokenKind::Pipe };
+    [name] => { TokenKind::Name }; [string] => { TokenKind::StringValue }; [int] => { TokenKind::Int }; [float] => { TokenKind::Float };
 }
 macro_rules! S {
-    [!] => { SyntaxKind::BANG }; ['['] => { SyntaxKind::L_BRACK }; [']'] => { SyntaxKind::R_BRACK };
-    ['{'] => { SyntaxKind::L_CURLY }; ['}'] => { SyntaxKind::R_CURLY }; [:] => { SyntaxKind::COLON };
-    [$] => { SyntaxKind::DOLLAR }; [=] => { SyntaxKind::EQ };
+    [!] => { SyntaxKind::BANG }; ['('] => { SyntaxKind::L_PAREN }; [')'] => { SyntaxKind::R_PAREN }; ['{'] => { SyntaxKind::L_CURLY }; ['}'] => { SyntaxKind::R_CURLY };
+    ['['] => { SyntaxKind::L_BRACK }; [']'] => { SyntaxKind::R_BRACK }; [,] => { SyntaxKind::COMMA }; [@] => { SyntaxKind::AT }; [$] => { SyntaxKind::DOLLAR };
+    [&] => { SyntaxKind::AMP }; [|] => { SyntaxKind::PIPE }; [...] => { SyntaxKind::SPREAD }; [=] => { SyntaxKind::EQ }; [:] => { SyntaxKind::COLON };
 }
 // message texts are irrelevant to every contract here
 #[verifier::external_body]
@@ -75,6 +80,9 @@ pub mod crate_error { pub type Error = super::Error; }
 //   * a limit error carries no text, and after it the lexer yields nothing (proved for the real
 //     Lexer::next in unit `limits`: limit_item_finishes, finished_is_final);
 //   * None is returned only after the limit was hit or after the EOF token (which comes last, when the text is used up).
+/// what the lexer guarantees about a token's text as far as the parser relies on it (proved for Cursor::advance in unit `lexer`):
+/// the EOF token is empty, a `{` token is the text "{"
+pub open spec fn tok_ok(t: Token) -> bool { (t.kind is Eof ==> t.data@ =~= Seq::<char>::empty()) && (t.kind is LCurly ==> t.data@ =~= seq!['{']) }
 pub struct LexState { pub rest: Seq<char>, pub fuel: nat, pub limited: bool, pub done: bool }
 pub struct Lexer<'a> { pub limit_tracker: LimitTracker, pub st: Ghost<LexState>, pub p: core::marker::PhantomData<&'a ()> }
 impl<'a> Lexer<'a> {
@@ -94,7 +102,8 @@ impl<'a> Lexer<'a> {
                 None => *final(self) == *old(self)
                         && (old(self).limited() || (old(self).done() && old(self).rest() =~= Seq::<char>::empty())),
                 Some(Ok(t)) => old(self).rest() == t.data@ + final(self).rest() && final(self).fuel() < old(self).fuel()
-                        && !old(self).limited() && !final(self).limited() && !old(self).done() && (final(self).done() <==> t.kind is Eof),
+                        && !old(self).limited() && !final(self).limited() && !old(self).done() && (final(self).done() <==> t.kind is Eof)
+                        && tok_ok(t) && (t.kind is Eof ==> final(self).rest() =~= Seq::<char>::empty()),
                 Some(Err(e)) => old(self).rest() == e.data@ + final(self).rest() && final(self).fuel() < old(self).fuel()
                         && !old(self).limited() && (final(self).limited() <==> e.is_limit) && !old(self).done() && !final(self).done()
                         && (e.is_limit ==> e.data@ =~= Seq::<char>::empty()),
@@ -127,22 +136,25 @@ impl SyntaxTreeBuilder {
     // finish_*: hand the accumulated errors and limit trackers to the tree, unchanged (syntax_tree.rs; not extracted: rowan)
     #[verifier::external_body]
     pub fn finish_type(self, errors: Vec<Error>, recursion_limit: LimitTracker, token_limit: LimitTracker) -> (r: syntax_tree::SyntaxTreeWrapper)
-        ensures r is Type, r->Type_0.errors == errors, r->Type_0.recursion_limit == recursion_limit, r->Type_0.token_limit == token_limit { unimplemented!() }
+        ensures r is Type, r->Type_0.errors == errors, r->Type_0.recursion_limit == recursion_limit, r->Type_0.token_limit == token_limit, r->Type_0.text@ == self.text() { unimplemented!() }
+    #[verifier::external_body]
+    pub fn finish_document(self, errors: Vec<Error>, recursion_limit: LimitTracker, token_limit: LimitTracker) -> (r: syntax_tree::SyntaxTreeWrapper)
+        ensures r is Document, r->Document_0.errors == errors, r->Document_0.recursion_limit == recursion_limit, r->Document_0.token_limit == token_limit, r->Document_0.text@ == self.text() { unimplemented!() }
     #[verifier::external_body]
     pub fn finish_selection_set(self, errors: Vec<Error>, recursion_limit: LimitTracker, token_limit: LimitTracker) -> (r: syntax_tree::SyntaxTreeWrapper)
-        ensures r is FieldSet, r->FieldSet_0.errors == errors, r->FieldSet_0.recursion_limit == recursion_limit, r->FieldSet_0.token_limit == token_limit { unimplemented!() }
+        ensures r is FieldSet, r->FieldSet_0.errors == errors, r->FieldSet_0.recursion_limit == recursion_limit, r->FieldSet_0.token_limit == token_limit, r->FieldSet_0.text@ == self.text() { unimplemented!() }
 }
 pub struct Type { pub x: u8 }
 pub struct SelectionSet { pub x: u8 }
 pub struct Document { pub x: u8 }
-pub struct SyntaxTree<T> { pub errors: Vec<Error>, pub recursion_limit: LimitTracker, pub token_limit: LimitTracker, pub t: core::marker::PhantomData<T> }
+pub struct SyntaxTree<T> { pub errors: Vec<Error>, pub recursion_limit: LimitTracker, pub token_limit: LimitTracker, pub text: Ghost<Seq<char>>, pub t: core::marker::PhantomData<T> }
 pub mod syntax_tree {
     pub enum SyntaxTreeWrapper { Document(super::SyntaxTree<super::Document>), Type(super::SyntaxTree<super::Type>), FieldSet(super::SyntaxTree<super::SelectionSet>) }
 }
 // NodeGuard / Checkpoint: hold an Rc to the builder and call finish_node / wrap_node (no text effect).
 // The aliasing through Rc<RefCell<..>> is dropped in this model (rewrite listed).
 pub struct NodeGuard { pub x: u8 }
-impl NodeGuard { pub fn new_shim() -> NodeGuard { NodeGuard { x: 0 } } }
+impl NodeGuard { pub fn new_shim() -> NodeGuard { NodeGuard { x: 0 } }  pub fn finish_node(self) { } }
 pub struct Checkpoint { pub x: u8 }
 impl Checkpoint {
     pub fn new_shim(c: RowanCheckpoint) -> Checkpoint { Checkpoint { x: 0 } }
@@ -174,6 +186,11 @@ pub open spec fn item_wf(x: PendingToken) -> bool {
     match x { PendingToken::Ignored(t) => ignored_kind(t.kind), PendingToken::Error(_) => true }
 }
 pub open spec fn pending_wf(p: Seq<PendingToken>) -> bool { forall|i: int| 0 <= i < p.len() ==> item_wf(#[trigger] p[i]) }
+pub broadcast proof fn lemma_pending_push_auto(p: Seq<PendingToken>, x: PendingToken)
+    ensures #[trigger] pending_text(p.push(x)) == pending_text(p) + item_text(x)
+{
+    assert(p.push(x).drop_last() =~= p);
+}
 pub proof fn lemma_pending_push(p: Seq<PendingToken>, x: PendingToken)
     ensures pending_text(p.push(x)) == pending_text(p) + item_text(x)
 {
@@ -227,6 +244,8 @@ impl<'input> Parser<'input> {
         &&& self.recursion_limit.current <= self.recursion_limit.limit   // C04: nesting never exceeds the limit
         &&& self.recursion_limit.limit < usize::MAX                 // machine-arithmetic side condition (a limit of 2^64-1 is meaningless)
         &&& (self.current_token is Some ==> (self.lexer.done() <==> self.current_token->0.kind is Eof))   // the look-ahead is the item lexed last
+        &&& (self.current_token is Some ==> tok_ok(self.current_token->0))
+        &&& (self.lexer.done() ==> self.lexer.rest() =~= Seq::<char>::empty())                            // EOF is handed out when the text is used up
     }
     /// what every primitive guarantees
     pub open spec fn conserved(&self, o: &Self) -> bool {
@@ -254,6 +273,12 @@ impl<'input> Parser<'input> {
     pub open spec fn new_sig(&self, o: &Self) -> Seq<SyntaxKind> { self.builder.sig().skip(o.builder.sig().len() as int) }
     /// since state `o`: no error was recorded, errors are still being accepted, and EOF had not been consumed at `o`
     pub open spec fn clean_since(&self, o: &Self) -> bool { !o.eof_consumed() && self.errors@.len() == o.errors@.len() && self.accept_errors }
+    /// state between grammar functions: a look-ahead token is buffered (or nothing is left), and it is a significant one
+    pub open spec fn tidy(&self) -> bool { self.ready() && (self.current_token is Some ==> !ignored_kind(self.current_token->0.kind)) }
+    pub open spec fn at_kind(&self, k: TokenKind) -> bool { self.current_token is Some && self.current_token->0.kind == k }
+    pub open spec fn has_look(&self) -> bool { self.current_token is Some }
+    /// a significant look-ahead token is buffered
+    pub open spec fn has_sig(&self) -> bool { self.current_token is Some && !ignored_kind(self.current_token->0.kind) }
     /// C07: nothing but ignored tokens (already queued) is left in the input
     pub open spec fn at_end(&self) -> bool {
         self.current_token is None || self.current_token->0.kind is Eof
@@ -303,39 +328,45 @@ pub proof fn lemma_conserved_refl(a: &Parser)
     assert(a.builder.sig().subrange(0, a.builder.sig().len() as int) =~= a.builder.sig());
 }
 
-// grammar functions outside this unit that the extracted bodies call (closure-driven, not extractable):
-// assumed to go through the verified primitives only (frame check `grammar_uses_primitives_only`).
-pub mod name {
-    use super::*;
-    // validate_name re-checks a token the lexer already classified as Name; with the lexer contract
-    // (Name tokens match the Name grammar -- C03, assumed) it never reports and never pops.
-    #[verifier::external_body]
-    pub fn validate_name(name: &str, p: &mut Parser)
-        ensures *final(p) == *old(p),
-    { unimplemented!() }
-    // grammar::name::name (peeks, then start_node + bump when the look-ahead is a Name, else err)
-    #[verifier::external_body]
-    pub fn name(p: &mut Parser)
-        requires old(p).wf(),
-        ensures final(p).conserved(old(p)), final(p).fuel() <= old(p).fuel(),
-            (old(p).current_token is Some && old(p).current_token->0.kind is Name) ==> final(p).fuel() < old(p).fuel(),
-    { unimplemented!() }
-}
-pub mod variable {
-    use super::*;
-    // grammar::variable::variable: start_node(VARIABLE); bump($); name(p)
-    #[verifier::external_body]
-    pub fn variable(p: &mut Parser)
-        requires old(p).wf(), old(p).ready(),
-        ensures final(p).conserved(old(p)), final(p).fuel() <= old(p).fuel(),
-            old(p).current_token is Some ==> final(p).fuel() < old(p).fuel(),
-    { unimplemented!() }
-}
+// grammar::name::validate_name re-checks a token the lexer already classified as Name; with the lexer contract
+// (Name tokens match the Name grammar -- proved for Cursor::advance in unit `lexer`) it never reports and never pops.
 #[verifier::external_body]
-pub fn selection(p: &mut Parser)
-    requires old(p).wf(),
-    ensures final(p).conserved(old(p)), final(p).fuel() <= old(p).fuel(),
+pub fn validate_name(name: &str, p: &mut Parser)
+    ensures *final(p) == *old(p),
 { unimplemented!() }
+
+// Look-ahead beyond the buffered token: `peek_n_inner` clones the lexer and runs an iterator chain over the clone
+// (`&self`: the parser state is untouched).  The results only steer which branch the grammar takes; no contract depends on them.
+impl<'input> Parser<'input> {
+    #[verifier::external_body]
+    pub fn peek_token_n(&self, n: usize) -> (r: Option<Token<'input>>) { unimplemented!() }
+    #[verifier::external_body]
+    pub fn peek_n(&self, n: usize) -> (r: Option<TokenKind>) { unimplemented!() }
+    #[verifier::external_body]
+    pub fn peek_data_n(&self, n: usize) -> (r: Option<&'input str>) { unimplemented!() }
+}
+// module paths used by the extracted bodies (`name::name(p)`, `selection::selection_set(p)`, ...): re-exports of the
+// extracted functions, which are all assembled at the top level of this file
+pub mod name { pub use super::{name, alias, validate_name}; }
+pub mod variable { pub use super::{variable, variable_definition, variable_definitions}; }
+pub mod argument { pub use super::{argument, arguments, arguments_definition}; }
+pub mod directive { pub use super::{directive, directives, directive_definition, directive_locations}; }
+pub mod field { pub use super::{field, fields_definition, field_definition}; }
+pub mod description { pub use super::{description}; }
+pub mod input { pub use super::{input_object_type_definition, input_object_type_extension, input_fields_definition, input_value_definition}; }
+pub mod enum_ { pub use super::{enum_type_definition, enum_type_extension, enum_values_definition, enum_value_definition}; }
+pub mod union_ { pub use super::{union_type_definition, union_type_extension, union_member_types}; }
+pub mod interface { pub use super::{interface_type_definition, interface_type_extension}; }
+pub mod object { pub use super::{object_type_definition, object_type_extension, implements_interfaces}; }
+pub mod schema { pub use super::{schema_definition, schema_extension}; }
+pub mod scalar { pub use super::{scalar_type_definition, scalar_type_extension}; }
+pub mod extensions { pub use super::{extensions}; }
+pub mod document { pub use super::{document}; }
+pub mod selection { pub use super::{selection, selection_set, field_set}; }
+pub mod fragment { pub use super::{fragment_definition, fragment_name, type_condition, inline_fragment, fragment_spread}; }
+pub mod operation { pub use super::{operation_definition, operation_type}; }
+pub mod ty { pub use super::{ty, named_type, standalone_ty}; }
+pub mod value { pub use super::{value, default_value, enum_value, Constness}; }
 '''
 
 C = "final(self).conserved(old(self))"
@@ -369,6 +400,7 @@ PEEK_POST = [
     ("ensures", "eof_is_last", "r is None ==> final(self).lexer.done() == old(self).lexer.done() && old(self).current_token is None"),
     ("ensures", "exhausted_is_stable", "(old(self).current_token is None && (old(self).lexer.limited() || old(self).lexer.done())) ==> r is None && *final(self) == *old(self)"),
     ("ensures", "eof_not_consumed", "!old(self).eof_consumed() ==> !final(self).eof_consumed()"),
+    ("ensures", "tidy_kept", "old(self).tidy() ==> final(self).tidy()"), ("ensures", "ready_after", "final(self).ready()"),
 ]
 
 lim = [p for p in LIMITS_UNIT["parts"] if isinstance(p, dict) and p.get("container") == "LimitTracker" or (isinstance(p, dict) and p.get("name") == "LimitTracker")]
@@ -386,12 +418,63 @@ def G(file, name, clauses, **kw):
     return d
 
 
+GDIR = "crates/apollo-parser/src/parser/grammar/"
+TIDY_PRE = ("requires", "tidy", "old(p).tidy()")
+BCAST = ("body_start", None, "broadcast use lemma_conserved_trans_auto;")
+# loop contracts for the inlined repetition loops: everything so far is conserved and no fuel was gained.
+#   gloop()              -- no progress claim
+#   gloop(cond)          -- the function consumed a token BEFORE the loop whenever `cond` held on entry (e.g. an opening bracket was bumped)
+#   gloop(cond, True)    -- nothing is consumed before the loop; whenever `cond` held on entry the FIRST iteration consumes a token
+def gloop(cond=None, first_iteration=False, extra=None):
+    inv = [("conserved", "p.conserved(old(p)), p.fuel() <= old(p).fuel()")]
+    ens = []
+    if cond and not first_iteration:
+        inv.append(("progress", "(%s) ==> p.fuel() < old(p).fuel()" % cond))
+    if cond and first_iteration:
+        inv.append(("progress_or_untouched", "(%s) ==> (p.fuel() < old(p).fuel() || p.current_token == old(p).current_token)" % cond))
+        ens.append(("progress", "(%s) ==> p.fuel() < old(p).fuel()" % cond))
+    if extra:
+        inv += extra
+    d = dict(invariant=inv, decreases="p.fuel()")
+    if ens:
+        d["ensures"] = ens
+    return d
+
+
+def GF(fname, name, progress=None, extra=None, **kw):
+    """A grammar function `fn name(p: &mut Parser, ..)`: conserves the text (C02), keeps the recursion bookkeeping balanced (C04),
+    never gains fuel (C01 termination); `progress`: when it is guaranteed to consume at least one token (what the repetition loops need)."""
+    cl = [GWF,
+          ("ensures", "conserved", "final(p).conserved(old(p))"),
+          ("ensures", "fuel", "final(p).fuel() <= old(p).fuel()")]
+    if kw.get("decreases"):
+        cl.append(("decreases", None, kw.pop("decreases")))
+    if progress:
+        cl.append(("ensures", "progress", "(%s) ==> final(p).fuel() < old(p).fuel()" % progress))
+    cl += extra or []
+    d = dict(file=GDIR + fname, kind="fn", name=name, clauses=cl, props=["C01", "C02", "C04"], hints=[BCAST])
+    hints = kw.pop("hints", None)
+    d.update(kw)
+    if hints:
+        d["hints"] = [BCAST] + hints
+    return d
+
+
+LOOK = "old(p).has_sig()"
+SCHEMA_START = "old(p).at_kind(TokenKind::StringValue) || (old(p).has_sig() && old(p).current_token->0.data == \"schema\")"
+NS = "old(p).at_kind(TokenKind::Name) || old(p).at_kind(TokenKind::StringValue)"   # a definition starts with its keyword (a Name) or with a description
+def AT(k):
+    return "old(p).at_kind(TokenKind::%s)" % k
+
+
 UNIT = {
     "name": "parser_core",
     "properties": ["C01", "C02", "C04", "C07"],
     "rlimit_retry": [60, 200],
     "parts": [
         PRELUDE_1,
+        dict(file="crates/apollo-parser/src/parser/generated/syntax_kind.rs", kind="enum", name="SyntaxKind",
+             attrs="#[derive(Clone, Copy, PartialEq, Eq, Structural)]\n#[allow(non_camel_case_types)]"),
         dict(file="crates/apollo-parser/src/lexer/token_kind.rs", kind="enum", name="TokenKind",
              attrs="#[derive(Clone, Copy, PartialEq, Eq, Structural)]"),
         dict(file="crates/apollo-parser/src/lexer/token.rs", kind="struct", name="Token", pub_fields=True, attrs="#[derive(Clone)]"),
@@ -434,6 +517,7 @@ UNIT = {
             ("ensures", "none_means_exhausted", "r is None ==> (final(self).lexer.limited() || (final(self).lexer.done() && final(self).lexer.rest() =~= Seq::<char>::empty()))"),
             ("ensures", "eof_is_last", "(r is Some ==> (final(self).lexer.done() <==> r->0.kind is Eof)) && (r is None ==> final(self).lexer.done() == old(self).lexer.done())"),
             ("ensures", "exhausted_is_stable", "(old(self).lexer.limited() || old(self).lexer.done()) ==> r is None && *final(self) == *old(self)"),
+            ("ensures", "token_text", "r is Some ==> tok_ok(r->0)"),
            ],
            n_loops=1,
            rewrites=[("for res in &mut self.lexer {", "loop { match self.lexer.next() { None => break, Some(res) => {", 1),
@@ -450,25 +534,32 @@ UNIT = {
                ("exhausted", "self.lexer.limited() || (self.lexer.done() && self.lexer.rest() =~= Seq::<char>::empty())"),
            ], decreases="self.lexer.fuel()")],
            hints=[
-               ("body_start", None, "proof { assert(old(self).errors@.subrange(0, old(self).errors@.len() as int) =~= old(self).errors@); }"),
-               ("after", "let data = err.data();",
-                "proof { let a = self.builder.text(); let b = pending_text(self.pending@); let c = err.data@; let d = self.lexer.rest();\n"
-                "        assert(a + b + (c + d) =~= a + (b + c) + d); assert(data@.len() == 0 ==> c =~= Seq::<char>::empty()); }"),
-               ("before", "self.pending.push(PendingToken::Error(data.to_owned()));", "let ghost pend0 = self.pending@;"),
-               ("after", "self.pending.push(PendingToken::Error(data.to_owned()));",
-                "proof { lemma_pending_push(pend0, self.pending@.last()); assert(self.pending@ =~= pend0.push(self.pending@.last())); assert(item_text(self.pending@.last()) =~= err.data@); }"),
-               ("before", "self.errors.push(err);",
-                "proof { let e0 = old(self).errors@; assert(self.errors@.push(err).subrange(0, e0.len() as int) =~= self.errors@.subrange(0, e0.len() as int)); }"),
+               ("body_start", None, "broadcast use lemma_pending_push_auto; proof { assert(old(self).errors@.subrange(0, old(self).errors@.len() as int) =~= old(self).errors@); }"),
+               # keyed by the loop, not by statement text: what one lexer ERROR item does to the queue and the error list
+               ("loop_body_start", 0, "let ghost s_in = *self;"),
+               ("loop_body_end", 0,
+                "proof { let r0 = s_in.lexer.rest(); let r1 = self.lexer.rest(); let c = r0.subrange(0, r0.len() - r1.len());\n"
+                "        assert forall|x: Seq<char>| r0 == #[trigger] (x + r1) implies x =~= c by { assert((x + r1).subrange(0, x.len() as int) =~= x); }\n"
+                "        assert(r0 =~= c + r1);\n"
+                "        assert(self.pending@ =~= s_in.pending@ || self.pending@ =~= s_in.pending@.push(self.pending@.last()));\n"
+                "        if self.pending@ =~= s_in.pending@ { assert(c.len() == 0); } else { assert(item_text(self.pending@.last()) =~= c); lemma_pending_push(s_in.pending@, self.pending@.last()); }\n"
+                "        assert(pending_text(self.pending@) =~= pending_text(s_in.pending@) + c);\n"
+                "        let a = self.builder.text(); let b = pending_text(s_in.pending@);\n"
+                "        assert(a + (b + c) + r1 =~= a + b + (c + r1));\n"
+                "        let e0 = old(self).errors@; assert(self.errors@.subrange(0, e0.len() as int) =~= s_in.errors@.subrange(0, e0.len() as int)); }"),
            ]),
         P("peek_token", [WF] + PEEK_POST + [("ensures", "result_value", "r is Some ==> *r->0 == final(self).current_token->0")],
           hints=[("body_start", None, "proof { lemma_conserved_refl(&*old(self)); }")]),
         P("peek", [WF] + PEEK_POST + [("ensures", "result_value", "r is Some ==> r->0 == final(self).current_token->0.kind")],
           rewrites=[("self.peek_token().map(|token| token.kind())", "match self.peek_token() { Some(token) => Some(token.kind()), None => None }", 1)]),
+        P("peek_data", [WF] + PEEK_POST + [("ensures", "result_value", "r is Some ==> r->0 == final(self).current_token->0.data")],
+          rewrites=[("self.peek_token().map(|token| token.data())", "match self.peek_token() { Some(token) => Some(token.data()), None => None }", 1)]),
         P("current", [WF] + PEEK_POST + [("ensures", "result_value", "r is Some ==> *r->0 == final(self).current_token->0")]),
         P("at", [WF, ("ensures", "conserved", C), ("ensures", "tree_untouched", "final(self).builder == old(self).builder"), ("ensures", "fuel", F),
                  ("ensures", "result", "r <==> (final(self).current_token is Some && final(self).current_token->0.kind == token)"),
                  ("ensures", "lookahead_stable", "old(self).current_token is Some ==> final(self).current_token == old(self).current_token && final(self).pending == old(self).pending && final(self).lexer == old(self).lexer && final(self).errors == old(self).errors && final(self).accept_errors == old(self).accept_errors"),
                  ("ensures", "eof_not_consumed", "!old(self).eof_consumed() ==> !final(self).eof_consumed()"),
+                 ("ensures", "tidy_kept", "old(self).tidy() ==> final(self).tidy()"), ("ensures", "ready_after", "final(self).ready()"),
                  ]),
         P("skip_ignored", [WF, ("ensures", "queue_kept_before_significant_lookahead", "(old(self).current_token is Some && !ignored_kind(old(self).current_token->0.kind)) ==> final(self).pending == old(self).pending"), ("ensures", "conserved", C), ("ensures", "tree_untouched", "final(self).builder == old(self).builder"), ("ensures", "fuel", F),
                            ("ensures", "stops_at_significant", "final(self).current_token is Some ==> !ignored_kind(final(self).current_token->0.kind)"), KEEP,
@@ -483,9 +574,9 @@ UNIT = {
                       ensures=[("stops_at_significant", "self.current_token is Some ==> !ignored_kind(self.current_token->0.kind)"),
                                ("none_means_exhausted", "self.current_token is None ==> (self.lexer.limited() || (self.lexer.done() && self.lexer.rest() =~= Seq::<char>::empty()))")],
                       decreases="self.fuel()")],
-          hints=[("body_start", None, "proof { lemma_conserved_refl(&*old(self)); }"),
-                 ("before", "let token = self.pop();", "proof { lemma_pending_push(self.pending@, PendingToken::Ignored(self.current_token->0)); }\nlet ghost before_pop = *self;"),
-                 ("after", "self.pending.push(PendingToken::Ignored(token));", "proof { assert(self.errors@ == before_pop.errors@); }")]),
+          hints=[("body_start", None, "broadcast use lemma_conserved_trans_auto; broadcast use lemma_pending_push_auto; proof { lemma_conserved_refl(&*old(self)); }"),
+                 ("loop_body_start", 0, "let ghost s_in = *self;"),
+                 ("loop_body_end", 0, "proof { assert(self.errors@ == s_in.errors@); assert(self.pending@ =~= s_in.pending@.push(self.pending@.last())); assert(item_text(self.pending@.last()) =~= s_in.current_token->0.data@); lemma_pending_push(s_in.pending@, self.pending@.last()); assert(self.builder == s_in.builder && self.lexer == s_in.lexer && self.current_token is None); let a = self.builder.text(); let b = pending_text(s_in.pending@); let c = s_in.current_token->0.data@; let d = self.lexer.rest(); assert(a + (b + c) + Seq::<char>::empty() + d =~= a + b + c + d); assert(self.all_text() =~= s_in.all_text()); }")]),
         P("push_ignored", [WF, ("ensures", "conserved", C), ("ensures", "queue_flushed", "final(self).pending@.len() == 0"),
                            ("ensures", "frame", "final(self).current_token == old(self).current_token && final(self).lexer == old(self).lexer && final(self).errors == old(self).errors && final(self).accept_errors == old(self).accept_errors && final(self).recursion_limit == old(self).recursion_limit"),
                            ("ensures", "flushed_into_tree", "final(self).builder.text() =~= old(self).builder.text() + pending_text(old(self).pending@)"),
@@ -516,74 +607,56 @@ UNIT = {
                   ("ensures", "consumes_lookahead", "old(self).current_token is Some ==> final(self).current_token is None && final(self).pending@.len() == 0 && final(self).lexer == old(self).lexer && final(self).builder.text() =~= old(self).builder.text() + pending_text(old(self).pending@) + old(self).current_token->0.data@"),
                   ("ensures", "nothing_to_consume", "old(self).current_token is None ==> final(self).current_token is None && final(self).lexer == old(self).lexer"),
                   ("ensures", "eof_not_consumed", "(!old(self).eof_consumed() && !(old(self).current_token is Some && old(self).current_token->0.kind is Eof)) ==> !final(self).eof_consumed()")],
-          hints=[("before", "if self.current().is_none() {", "let ghost s1 = *self;"),
-                 ("before", "let token = self.pop();", "let ghost s2 = *self; proof { lemma_conserved_trans(&*old(self), &s1, &s2); assert(s2.pending@.len() == 0); }"),
-                 ("body_end", None, "proof { let a = s2.builder.text(); lemma_prefix_append(a, token.data@); lemma_prefix_trans(old(self).builder.text(), a, self.builder.text());\n"
-                                    "        assert(self.errors@.subrange(0, old(self).errors@.len() as int) =~= s2.errors@.subrange(0, old(self).errors@.len() as int)); assert(pending_text(self.pending@) =~= Seq::<char>::empty()); }")]),
+          hints=[("body_start", None, "broadcast use lemma_conserved_trans_auto;")]),
         P("bump", [WF, READY, ("ensures", "conserved", C),
                    ("ensures", "fuel", "final(self).fuel() <= old(self).fuel() && (old(self).current_token is Some ==> final(self).fuel() < old(self).fuel())"),
                    ("ensures", "stops_at_significant", "final(self).current_token is Some ==> !ignored_kind(final(self).current_token->0.kind)"),
-                   ("ensures", "ready_again", "final(self).ready()"),
+                   ("ensures", "ready_again", "final(self).ready()"), ("ensures", "tidy", "final(self).tidy()"),
                    ("ensures", "eof_not_consumed", "(!old(self).eof_consumed() && !(old(self).current_token is Some && old(self).current_token->0.kind is Eof)) ==> !final(self).eof_consumed()"),
                    ("ensures", "significant_kinds", "final(self).builder.sig() == (if old(self).current_token is Some && !ignored_syntax(kind) { old(self).builder.sig().push(kind) } else { old(self).builder.sig() })")],
-          hints=[("after", "self.eat(kind);", "let ghost s1 = *self;"),
-                 ("body_end", None, "proof { lemma_conserved_trans(&*old(self), &s1, &*self); }")]),
+          hints=[("body_start", None, "broadcast use lemma_conserved_trans_auto;")]),
         P("limit_err", [WF, ("ensures", "conserved", C), ("ensures", "fuel", F),
                         ("ensures", "limit_recorded", "final(self).current_token is Some ==> !final(self).accept_errors"),
+                        ("ensures", "recorded_error_is_a_limit_error", "(old(self).accept_errors && old(self).current_token is Some) ==> final(self).errors@.len() == old(self).errors@.len() + 1 && final(self).errors@.last().is_limit", ["C04"]),
                         ("ensures", "limit_always_recorded_before_eof", "!old(self).eof_consumed() ==> !final(self).accept_errors"), ("ensures", "eof_not_consumed", "!old(self).eof_consumed() ==> !final(self).eof_consumed()"),
-                        ("ensures", "tree_untouched", "final(self).builder == old(self).builder")],
+                        ("ensures", "tree_untouched", "final(self).builder == old(self).builder"), ("ensures", "tidy_kept", "old(self).tidy() ==> final(self).tidy()"), ("ensures", "ready_after", "final(self).ready()")],
           rewrites=[("pub fn limit_err<S: Into<String>>(&mut self, message: S)", "pub fn limit_err(&mut self, message: &str)", 1)],
-          hints=[("before", "self.push_err(err);", "let ghost s1 = *self;"),
-                 ("body_end", None, "proof { assert(self.conserved(&s1)) by { assert(self.all_text() =~= s1.all_text()); assert(self.errors@.len() > 0); }; lemma_conserved_trans(&*old(self), &s1, &*self); }")]),
+          hints=[("body_start", None, "broadcast use lemma_conserved_trans_auto;")]),
         P("err_at_token", [WF, ("ensures", "conserved", C), ("ensures", "fuel", "final(self).fuel() == old(self).fuel()"),
                            ("ensures", "frame", "final(self).current_token == old(self).current_token && final(self).builder == old(self).builder && final(self).pending == old(self).pending && final(self).lexer == old(self).lexer && final(self).accept_errors == old(self).accept_errors"),
                            ("ensures", "error_recorded", "old(self).accept_errors ==> final(self).errors@.len() == old(self).errors@.len() + 1")]),
         P("err", [WF, ("ensures", "conserved", C), ("ensures", "fuel", F), ("ensures", "tree_untouched", "final(self).builder == old(self).builder"),
                   ("ensures", "error_recorded", "(final(self).current_token is Some && final(self).accept_errors) ==> final(self).errors@.len() > old(self).errors@.len()"),
-                  ("ensures", "lookahead_stable", "old(self).current_token is Some ==> final(self).current_token == old(self).current_token")],
-          hints=[("before", "self.push_err(err);", "let ghost s1 = *self;"),
-                 ("body_end", None, "proof { lemma_conserved_trans(&*old(self), &s1, &*self); }")]),
+                  ("ensures", "lookahead_stable", "old(self).current_token is Some ==> final(self).current_token == old(self).current_token && final(self).lexer == old(self).lexer"), ("ensures", "tidy_kept", "old(self).tidy() ==> final(self).tidy()"), ("ensures", "ready_after", "final(self).ready()")],
+          hints=[("body_start", None, "broadcast use lemma_conserved_trans_auto;")]),
         P("err_and_pop", [WF, READY, ("ensures", "conserved", C),
                           ("ensures", "fuel", "final(self).fuel() <= old(self).fuel() && (old(self).current_token is Some ==> final(self).fuel() < old(self).fuel())"),
-                          ("ensures", "ready_again", "final(self).ready()"),
+                          ("ensures", "ready_again", "final(self).ready()"), ("ensures", "tidy", "final(self).tidy()"),
                           ("ensures", "error_recorded", "(old(self).current_token is Some && old(self).accept_errors) ==> final(self).errors@.len() > old(self).errors@.len()")],
-          hints=[("before", "if self.current().is_none() {", "let ghost s1 = *self;"),
-                 ("before", "let current = self.pop();", "let ghost s2 = *self; proof { lemma_conserved_trans(&*old(self), &s1, &s2); }"),
-                 ("after", "self.push_token(SyntaxKind::ERROR, current);", "let ghost s3 = *self; proof { lemma_prefix_append(s2.builder.text(), current.data@); assert(s3.conserved(&s2)) by { assert(s3.errors@.subrange(0, s2.errors@.len() as int) =~= s2.errors@); }; lemma_conserved_trans(&*old(self), &s2, &s3); }"),
-                 ("after", "self.push_err(err);", "let ghost s4 = *self; proof { lemma_conserved_trans(&*old(self), &s3, &s4); }"),
-                 ("body_end", None, "proof { lemma_conserved_trans(&*old(self), &s4, &*self); }")]),
+          hints=[("body_start", None, "broadcast use lemma_conserved_trans_auto;")]),
         P("expect", [WF, ("ensures", "conserved", C), ("ensures", "fuel", F),
                      ("ensures", "consumes_the_expected_token_or_reports", "final(self).clean_since(old(self)) ==> final(self).builder.sig() == (if ignored_syntax(kind) { old(self).builder.sig() } else { old(self).builder.sig().push(kind) })"),
                      ("ensures", "adds_at_most_that_token", "final(self).builder.sig() == old(self).builder.sig() || final(self).builder.sig() == old(self).builder.sig().push(kind)"),
-                     ("ensures", "eof_not_consumed", "(!old(self).eof_consumed() && !(token is Eof)) ==> !final(self).eof_consumed()")],
-          hints=[("before", "if self.at(token) {", "let ghost s1 = *self;"),
-                 ("after", "if self.at(token) {", "let ghost s2 = *self; proof { lemma_conserved_trans(&*old(self), &s1, &s2); }"),
-                 ("after", "self.bump(kind);", "proof { lemma_conserved_trans(&*old(self), &s2, &*self); }"),
-                 ("before", "let err = if is_eof {", "let ghost s3 = *self; proof { lemma_conserved_trans(&*old(self), &s1, &s3); }"),
-                 ("body_end", None, "proof { lemma_conserved_trans(&*old(self), &s3, &*self); }")]),
-        P("start_node", [WF, ("ensures", "conserved", C), ("ensures", "fuel", F), KEEP, FLUSH, ("ensures", "ready", "final(self).ready()"), ("ensures", "eof_not_consumed", "!old(self).eof_consumed() ==> !final(self).eof_consumed()"), ("ensures", "no_significant_token_added", "final(self).builder.sig() == old(self).builder.sig()"),
+                     ("ensures", "eof_not_consumed", "(!old(self).eof_consumed() && !(token is Eof)) ==> !final(self).eof_consumed()"),
+                     ("ensures", "tidy_kept", "old(self).tidy() ==> final(self).tidy()"), ("ensures", "ready_after", "final(self).ready()"), ("ensures", "progress_when_at", "old(self).at_kind(token) ==> final(self).fuel() < old(self).fuel()")],
+          hints=[("body_start", None, "broadcast use lemma_conserved_trans_auto;")]),
+        P("start_node", [WF, ("ensures", "conserved", C), ("ensures", "fuel", F), KEEP, FLUSH, ("ensures", "ready", "final(self).ready()"), ("ensures", "eof_not_consumed", "!old(self).eof_consumed() ==> !final(self).eof_consumed()"), ("ensures", "no_significant_token_added", "final(self).builder.sig() == old(self).builder.sig()"), ("ensures", "tidy", "final(self).tidy()"),
                          ("ensures", "stops_at_significant", "final(self).current_token is Some ==> !ignored_kind(final(self).current_token->0.kind)")],
           rewrites=BORROW + [("NodeGuard::new(self.builder.clone())", "NodeGuard::new_shim()", 1)],
-          hints=[("after", "self.push_ignored();", "let ghost s1 = *self;"),
-                 ("before", "self.skip_ignored();", "let ghost s2 = *self; proof { assert(s2.conserved(&s1)) by { lemma_conserved_refl(&s1); }; lemma_conserved_trans(&*old(self), &s1, &s2); }"),
-                 ("after", "self.skip_ignored();", "proof { lemma_conserved_trans(&*old(self), &s2, &*self); }")]),
-        P("start_root_node", [WF, ("ensures", "conserved", C), ("ensures", "fuel", F), KEEP, FLUSH, ("ensures", "ready", "final(self).ready()"), ("ensures", "eof_not_consumed", "!old(self).eof_consumed() ==> !final(self).eof_consumed()"), ("ensures", "no_significant_token_added", "final(self).builder.sig() == old(self).builder.sig()"),
+          hints=[("body_start", None, "broadcast use lemma_conserved_trans_auto;")]),
+        P("start_root_node", [WF, ("ensures", "conserved", C), ("ensures", "fuel", F), KEEP, FLUSH, ("ensures", "ready", "final(self).ready()"), ("ensures", "eof_not_consumed", "!old(self).eof_consumed() ==> !final(self).eof_consumed()"), ("ensures", "no_significant_token_added", "final(self).builder.sig() == old(self).builder.sig()"), ("ensures", "tidy", "final(self).tidy()"),
                               ("ensures", "stops_at_significant", "final(self).current_token is Some ==> !ignored_kind(final(self).current_token->0.kind)")],
           rewrites=BORROW + [("NodeGuard::new(self.builder.clone())", "NodeGuard::new_shim()", 1)],
-          hints=[("before", "self.push_ignored();", "let ghost s1 = *self; proof { assert(s1.conserved(old(self))) by { lemma_conserved_refl(&*old(self)); }; }"),
-                 ("after", "self.push_ignored();", "let ghost s2 = *self; proof { lemma_conserved_trans(&*old(self), &s1, &s2); }"),
-                 ("after", "self.skip_ignored();", "proof { lemma_conserved_trans(&*old(self), &s2, &*self); }")]),
+          hints=[("body_start", None, "broadcast use lemma_conserved_trans_auto;")]),
         P("checkpoint_node", [WF, ("ensures", "conserved", C), ("ensures", "fuel", "final(self).fuel() == old(self).fuel()"),
                               ("ensures", "frame", "final(self).current_token == old(self).current_token && final(self).lexer == old(self).lexer && final(self).errors == old(self).errors && final(self).builder.sig() == old(self).builder.sig()")],
           rewrites=[("self.builder.borrow().checkpoint()", "self.builder.checkpoint()", 1), ("Checkpoint::new(self.builder.clone(), checkpoint)", "Checkpoint::new_shim(checkpoint)", 1)]),
         P("expect_end_of_input", [WF, ("ensures", "conserved", C), ("ensures", "fuel", F), ("ensures", "no_significant_token_added", "final(self).builder.sig() == old(self).builder.sig()"),
+                                  ("ensures", "tree_untouched_after_the_root_was_closed", "final(self).builder == old(self).builder", ["C01"]),
                                   ("ensures", "no_new_error_only_at_end_of_input", "(final(self).errors@.len() == old(self).errors@.len() && final(self).accept_errors) ==> final(self).at_end()"),
                                   ("ensures", "end_means_exhausted", "final(self).current_token is None ==> (final(self).lexer.limited() || (final(self).lexer.done() && final(self).lexer.rest() =~= Seq::<char>::empty()))")],
           props=["C07"],
-          hints=[("after", "self.skip_ignored();", "let ghost s1 = *self;"),
-                 ("before", "self.err(\"expected end of input\");", "let ghost s2 = *self; proof { lemma_conserved_trans(&*old(self), &s1, &s2); }"),
-                 ("after", "self.err(\"expected end of input\");", "proof { lemma_conserved_trans(&*old(self), &s2, &*self); }"),
-                 ("body_end", None, "proof { if self.errors@.len() == old(self).errors@.len() { lemma_conserved_trans(&*old(self), &s1, &*self); } }")]),
+          hints=[("body_start", None, "broadcast use lemma_conserved_trans_auto;")]),
     
         # ---------------- grammar functions that consume tokens directly ----------------
         dict(file=PM, kind="const", name="DEFAULT_RECURSION_LIMIT"),
@@ -622,12 +695,10 @@ UNIT = {
               ("before", "Ok(())\n}", "proof { if p.clean_since(&*old(p)) { lemma_non_null_type(t1.new_sig(&*old(p))); } }"),
           ]),
         G(TY, "ty", [GWF, ("ensures", "conserved", "final(p).conserved(old(p))"), ("ensures", "fuel", "final(p).fuel() <= old(p).fuel()")],
-          hints=[("body_start", None, "let ghost s0 = *p;")],
+          hints=[("body_start", None, "broadcast use lemma_conserved_trans_auto;")],
           ),
         G(TY, "named_type", [GWF, ("ensures", "conserved", "final(p).conserved(old(p))"), ("ensures", "fuel", "final(p).fuel() <= old(p).fuel()")],
-          hints=[("before", "let _g = p.start_node(SyntaxKind::NAMED_TYPE);", "let ghost s1 = *p;"),
-                 ("after", "let _g = p.start_node(SyntaxKind::NAMED_TYPE);", "let ghost s2 = *p; proof { lemma_conserved_trans(&*old(p), &s1, &s2); }"),
-                 ("after", "name::name(p);", "proof { lemma_conserved_trans(&*old(p), &s2, &*p); }")]),
+          hints=[("body_start", None, "broadcast use lemma_conserved_trans_auto;")]),
     
         # standalone type: leading ignored tokens are dropped (no parent node exists for them), so the text is not
         # conserved here (C02 is about documents); everything else is.
@@ -640,43 +711,16 @@ UNIT = {
                  ("before", "Ok(_) => (),", "Ok(_) if false => (),") if False else ("body_end", None, "proof { }"),
                  ]),
     
-        G(SEL, "selection_set", [GWF, ("ensures", "conserved", "final(p).conserved(old(p))"), ("ensures", "fuel", "final(p).fuel() <= old(p).fuel()")],
-          hints=[("body_start", None, "let ghost s0 = *p;"),
-                 ("before", "let _g = p.start_node(SyntaxKind::SELECTION_SET);", "let ghost s1 = *p;"),
-                 ("after", "let _g = p.start_node(SyntaxKind::SELECTION_SET);", "let ghost s2 = *p; proof { lemma_conserved_trans(&s0, &s1, &s2); }"),
-                 ("after", "p.bump(S!['{']);", "let ghost s3 = *p; proof { lemma_conserved_trans(&s0, &s2, &s3); }"),
-                 ("after", "p.limit_err(\"parser recursion limit reached\");", "proof { lemma_conserved_trans(&s0, &s3, &*p); }"),
-                 ("before", "selection(p);", "let ghost s4 = *p; proof { assert(s4.all_text() =~= s3.all_text()); assert(p.recursion_limit.current == old(p).recursion_limit.current + 1 && p.recursion_limit.current <= p.recursion_limit.limit); /* C01: nesting depth is bounded by the limit */ }"),
-                 ("after", "selection(p);", "let ghost s5 = *p;"),
-                 ("after", "p.recursion_limit.decrement();", "let ghost s6 = *p; proof { assert(s6.all_text() =~= s5.all_text()); assert(s6.conserved(&s3)) by { assert(s4.builder == s3.builder && s4.errors == s3.errors && s6.builder == s5.builder && s6.errors == s5.errors); }; lemma_conserved_trans(&s0, &s3, &s6); }"),
-                 ("after", "p.expect(T!['}'], S!['}']);", "proof { lemma_conserved_trans(&s0, &s6, &*p); }"),
-                 ]),
+        G(SEL, "selection_set", [GWF, ("ensures", "conserved", "final(p).conserved(old(p))"), ("ensures", "fuel", "final(p).fuel() <= old(p).fuel()"),
+                                 ("ensures", "progress", "old(p).at_kind(TokenKind::LCurly) ==> final(p).fuel() < old(p).fuel()"), ("decreases", None, "old(p).fuel(), 1int")],
+          hints=[("body_start", None, "broadcast use lemma_conserved_trans_auto;")]),
         G(SEL, "field_set", [GWF, ("ensures", "conserved", "final(p).conserved(old(p))"), ("ensures", "fuel", "final(p).fuel() <= old(p).fuel()")],
-          hints=[("body_start", None, "let ghost s0 = *p;"),
-                 ("after", "let _g = p.start_root_node(SyntaxKind::SELECTION_SET);", "let ghost s1 = *p;"),
-                 ("after", "let has_braces = matches!(p.peek(), Some(T!['{']));", "let ghost s2 = *p; proof { lemma_conserved_trans(&s0, &s1, &s2); }"),
-                 ("before", "// We need to enforce recursion limits to prevent", "let ghost s3 = *p; proof { if has_braces { lemma_conserved_trans(&s0, &s2, &s3); } }"),
-                 ("after", "p.limit_err(\"parser recursion limit reached\");", "proof { lemma_conserved_trans(&s0, &s3, &*p); }"),
-                 ("before", "selection(p);", "let ghost s4 = *p; proof { assert(s4.all_text() =~= s3.all_text()); assert(p.recursion_limit.current == old(p).recursion_limit.current + 1 && p.recursion_limit.current <= p.recursion_limit.limit); /* C01: nesting depth is bounded by the limit */ }"),
-                 ("after", "selection(p);", "let ghost s5 = *p;"),
-                 ("after", "p.recursion_limit.decrement();", "let ghost s6 = *p; proof { assert(s6.all_text() =~= s5.all_text()); assert(s6.conserved(&s3)) by { assert(s4.builder == s3.builder && s4.errors == s3.errors && s6.builder == s5.builder && s6.errors == s5.errors); }; lemma_conserved_trans(&s0, &s3, &s6); }"),
-                 ("after", "p.expect(T!['}'], S!['}']);", "proof { lemma_conserved_trans(&s0, &s6, &*p); }"),
-                 ]),
+          hints=[("body_start", None, "broadcast use lemma_conserved_trans_auto;")]),
         dict(file=VAL, kind="enum", name="Constness", attrs="#[derive(Clone, Copy)]"),
         G(VAL, "object_field", [GWF, ("ensures", "conserved", "final(p).conserved(old(p))"),
                                 ("ensures", "fuel", "final(p).fuel() <= old(p).fuel() && ((old(p).current_token is Some && old(p).current_token->0.kind is Name) ==> final(p).fuel() < old(p).fuel())"),
                                 ("decreases", None, "old(p).fuel(), 1int")],
-          hints=[("body_start", None, "let ghost s0 = *p;"),
-                 ("after", "let _guard = p.start_node(SyntaxKind::OBJECT_FIELD);", "let ghost s1 = *p;"),
-                 ("after", "name::name(p);", "let ghost s2 = *p; proof { lemma_conserved_trans(&s0, &s1, &s2); }"),
-                 ("before", "p.bump(S![:]);", "let ghost s2b = *p; proof { lemma_conserved_trans(&s0, &s2, &s2b); }"),
-                 ("after", "p.bump(S![:]);", "let ghost s3 = *p; proof { lemma_conserved_trans(&s0, &s2b, &s3); }"),
-                 ("after", "p.limit_err(\"parser recursion limit reached\");", "proof { lemma_conserved_trans(&s0, &s3, &*p); }"),
-                 ("before", "value(p, constness, true);", "let ghost s4 = *p; proof { assert(s4.all_text() =~= s3.all_text()); assert(p.recursion_limit.current == old(p).recursion_limit.current + 1 && p.recursion_limit.current <= p.recursion_limit.limit); /* C01: nesting depth is bounded by the limit */ }"),
-                 ("after", "value(p, constness, true);", "let ghost s5 = *p;"),
-                 ("after", "p.recursion_limit.decrement();", "let ghost s6 = *p; proof { assert(s6.all_text() =~= s5.all_text()); assert(s6.conserved(&s3)) by { assert(s4.builder == s3.builder && s4.errors == s3.errors && s6.builder == s5.builder && s6.errors == s5.errors); }; lemma_conserved_trans(&s0, &s3, &s6); }"),
-                 ("body_end", None, "proof { if *p == s2 { lemma_conserved_trans(&s0, &s1, &s2); } }"),
-                 ],
+          hints=[("body_start", None, "broadcast use lemma_conserved_trans_auto;")],
           rewrites=[("p.recursion_limit.decrement()\n", "p.recursion_limit.decrement();\n", 1)]),
 
         # ---------------- the value cycle: value -> list_value -> value, value -> object_value -> object_field -> value ----------------
@@ -713,13 +757,100 @@ UNIT = {
                       decreases="p.fuel()")],
           hints=[("body_start", None, "broadcast use lemma_conserved_trans_auto;")]),
 
+
+        # ---------------- the executable half of the grammar ----------------
+        GF("name.rs", "name", progress=AT("Name"),
+           extra=[("ensures", "other_lookahead_kept", "(old(p).has_look() && !old(p).at_kind(TokenKind::Name)) ==> final(p).current_token == old(p).current_token && final(p).lexer == old(p).lexer"),
+                  ("ensures", "ready_after", "final(p).ready()")]),
+        GF("name.rs", "alias", progress=LOOK),
+        GF("variable.rs", "variable", progress=LOOK),
+        GF("variable.rs", "variable_definition", progress=LOOK),
+        GF("variable.rs", "variable_definitions", progress=LOOK, inline_combinators=1, n_loops=1, loops=[gloop(LOOK)]),
+        GF("argument.rs", "argument", progress=AT("Name")),
+        GF("argument.rs", "arguments", progress=LOOK, inline_combinators=1, n_loops=1, loops=[gloop(LOOK)]),
+        GF("directive.rs", "directive", progress=AT("At")),
+        GF("directive.rs", "directives", progress=AT("At"), inline_combinators=1, n_loops=1, loops=[gloop(AT("At"), True)]),
+        GF("field.rs", "field", progress=AT("Name"), decreases="old(p).fuel(), 2int"),
+        GF("selection.rs", "selection", decreases="old(p).fuel(), 3int",
+           extra=[("requires", "called_one_nesting_level_down", "old(p).recursion_limit.current > 0", ["C04"])],   # every selection list is parsed inside a counted nesting level
+           inline_combinators=1, n_loops=1, loops=[gloop()]),
+        GF("fragment.rs", "fragment_definition", progress=LOOK),
+        GF("fragment.rs", "fragment_name"),
+        GF("fragment.rs", "type_condition"),
+        GF("fragment.rs", "inline_fragment", progress=LOOK, decreases="old(p).fuel(), 2int"),
+        GF("fragment.rs", "fragment_spread", progress=LOOK),
+        GF("operation.rs", "operation_definition", progress=LOOK),
+        GF("operation.rs", "operation_type", progress=LOOK),
+
+
+        # ---------------- the type-system half of the grammar ----------------
+        GF("description.rs", "description", progress=LOOK),
+        GF("argument.rs", "arguments_definition", progress=LOOK, inline_combinators=1, n_loops=1, loops=[gloop(LOOK)]),
+        GF("field.rs", "fields_definition", progress=LOOK, inline_combinators=1, n_loops=1, loops=[gloop(LOOK)]),
+        GF("field.rs", "field_definition", progress=NS),
+        GF("input.rs", "input_object_type_definition", progress=NS),
+        GF("input.rs", "input_object_type_extension", progress=LOOK),
+        GF("input.rs", "input_fields_definition", progress=LOOK, inline_combinators=1, n_loops=1, loops=[gloop(LOOK)]),
+        GF("input.rs", "input_value_definition", progress=NS),
+        GF("enum_.rs", "enum_type_definition", progress=NS),
+        GF("enum_.rs", "enum_type_extension", progress=LOOK),
+        GF("enum_.rs", "enum_values_definition", progress=LOOK, inline_combinators=1, n_loops=1, loops=[gloop(LOOK)]),
+        GF("enum_.rs", "enum_value_definition", progress=NS),
+        GF("union_.rs", "union_type_definition", progress=NS),
+        GF("union_.rs", "union_type_extension", progress=LOOK),
+        GF("union_.rs", "union_member_types", progress=LOOK, inline_combinators=1, n_loops=1, loops=[gloop(LOOK)]),
+        GF("interface.rs", "interface_type_definition", progress=NS),
+        GF("interface.rs", "interface_type_extension", progress=LOOK),
+        GF("object.rs", "object_type_definition", progress=NS),
+        GF("object.rs", "object_type_extension", progress=LOOK),
+        GF("object.rs", "implements_interfaces", progress=LOOK, inline_combinators=1, n_loops=1, loops=[gloop(LOOK)]),
+        GF("schema.rs", "root_operation_type_definition", progress=LOOK),
+        GF("schema.rs", "schema_definition", progress=SCHEMA_START, inline_combinators=1, n_loops=1, loops=[gloop(SCHEMA_START)]),
+        GF("schema.rs", "schema_extension", progress=LOOK, inline_combinators=1, n_loops=1, loops=[gloop(LOOK)]),
+        GF("scalar.rs", "scalar_type_definition", progress=NS),
+        GF("scalar.rs", "scalar_type_extension", progress=LOOK),
+        GF("directive.rs", "directive_definition", progress=NS, inline_combinators=1, n_loops=1, loops=[gloop(NS)]),
+        GF("directive.rs", "directive_location"),
+        GF("directive.rs", "directive_locations", inline_combinators=1, n_loops=1, loops=[gloop()]),
+        GF("extensions.rs", "extensions", progress=LOOK, extra=[("requires", "lookahead_present_or_lexer_exhausted", "old(p).ready()")]),
+
+
+        # ---------------- the document ----------------
+        GF("document.rs", "select_definition",
+           progress="old(p).at_kind(TokenKind::StringValue) || ((old(p).at_kind(TokenKind::Name) || old(p).at_kind(TokenKind::LCurly)) && def == old(p).current_token->0.data)",
+           extra=[("requires", "lookahead_present_or_lexer_exhausted", "old(p).ready()")],
+           hints=[("body_start", None, 'proof { reveal_strlit("directive"); reveal_strlit("enum"); reveal_strlit("extend"); reveal_strlit("fragment"); reveal_strlit("input"); reveal_strlit("interface"); reveal_strlit("type"); reveal_strlit("query"); reveal_strlit("mutation"); reveal_strlit("subscription"); reveal_strlit("{"); reveal_strlit("scalar"); reveal_strlit("schema"); reveal_strlit("union"); }')]),
+        GF("document.rs", "document",
+           extra=[("requires", "recursion_bookkeeping_starts_at_zero", "old(p).recursion_limit.current == 0", ["C01", "C04"]),
+                  ("ensures", "queue_flushed", "final(p).pending@.len() == 0", ["C02"]),
+                  ("ensures", "whole_input_consumed_unless_token_limit", "!final(p).lexer.limited() ==> cur_text(final(p).current_token) =~= Seq::<char>::empty() && final(p).lexer.rest() =~= Seq::<char>::empty()", ["C02"])],
+           rewrites=[(r'assert_eq!\(\s*p\.recursion_limit\.current,\s*0,\s*"unbalanced limit increment / decrement"\s*\);', "assert!(p.recursion_limit.current == 0);", 1, "re")],
+           inline_combinators=1, n_loops=1,
+           loops=[dict(invariant=[("conserved", "p.conserved(old(p)), p.fuel() <= old(p).fuel()"), ("recursion_bookkeeping_balanced", "p.recursion_limit.current == 0", ["C01", "C04"])],
+                       ensures=[("whole_input_consumed_unless_token_limit", "!p.lexer.limited() ==> cur_text(p.current_token) =~= Seq::<char>::empty() && p.lexer.rest() =~= Seq::<char>::empty()")],
+                       decreases="p.fuel()")]),
+        P("parse", [("requires", "wf", "self_in.wf()"),
+                    ("requires", "fresh", "self_in.builder.text() =~= Seq::<char>::empty() && self_in.pending@.len() == 0 && self_in.current_token is None && self_in.recursion_limit.current == 0"),
+                    ("ensures", "tree_text_is_a_prefix_of_the_input", "is_prefix(tree.text@, self_in.lexer.rest())", ["C04", "C02"]),
+                    ("ensures", "no_error_dropped", "tree.errors@.len() == 0 ==> self_in.errors@.len() == 0")],
+          ret="tree", props=["C02", "C04", "C01"],
+          rewrites=[("grammar::document::document(&mut self);", "document(&mut self);", 1), MUTSELF_1, MUTSELF_2,
+                    ('Rc::try_unwrap\\(this\\.builder\\)\\s*\\.expect\\(\\"More than one reference to builder left\\"\\)\\s*\\.into_inner\\(\\)', "this.builder", 1, "re")],
+          hints=[("after", "document(&mut this);",
+                  "proof { /* C02: with no token limit hit, the text of the document tree IS the input */\n"
+                  "        assert(this.all_text() =~= self_in.all_text());\n"
+                  "        assert(pending_text(this.pending@) =~= Seq::<char>::empty());\n"
+                  "        assert(self_in.all_text() =~= self_in.lexer.rest()) by { assert(pending_text(self_in.pending@) =~= Seq::<char>::empty()); }\n"
+                  "        assert(!this.lexer.limited() ==> this.builder.text() =~= self_in.lexer.rest());\n"
+                  "        lemma_tree_is_prefix_of_input(&self_in, &this, self_in.lexer.rest()); }")]),
+
         # ---------------- standalone entry points (C07) ----------------
         P("parse_type", [("requires", "wf", "self_in.wf()"), ("requires", "fresh", "!self_in.eof_consumed() && self_in.builder.sig() =~= Seq::<SyntaxKind>::empty()"),
                          ("ensures", "no_error_dropped", "tree.errors@.len() == 0 ==> self_in.errors@.len() == 0")],
           ret="tree", props=["C07", "C01"],
           rewrites=[("grammar::ty::standalone_ty(&mut self);", "standalone_ty(&mut self);", 1), MUTSELF_1, MUTSELF_2,
                     ('Rc::try_unwrap\\(this\\.builder\\)\\s*\\.expect\\(\\"More than one reference to builder left\\"\\)\\s*\\.into_inner\\(\\)', "this.builder", 1, "re")],
-          hints=[("after", "this.expect_end_of_input();",
+          hints=[("before", "let builder = this.builder;",
                   "let ghost errs = this.errors;\n"
                   "proof { /* C07: no error is reported only if the significant tokens are exactly one type reference and nothing but ignored tokens is left */\n"
                   "        assert(this.errors@.len() == 0 ==> this.at_end() && g_type(this.builder.sig())) by { if this.errors@.len() == 0 { assert(mid.errors@.len() == 0); assert(mid.clean_since(&self_in)); assert(mid.builder.sig().skip(0) =~= mid.builder.sig()); assert(this.builder.sig() == mid.builder.sig()); } } }"),
@@ -730,7 +861,7 @@ UNIT = {
           ret="tree", props=["C07", "C01"],
           rewrites=[("grammar::selection::field_set(&mut self);", "field_set(&mut self);", 1), MUTSELF_1, MUTSELF_2,
                     ('Rc::try_unwrap\\(this\\.builder\\)\\s*\\.expect\\(\\"More than one reference to builder left\\"\\)\\s*\\.into_inner\\(\\)', "this.builder", 1, "re")],
-          hints=[("after", "this.expect_end_of_input();",
+          hints=[("before", "let builder = this.builder;",
                   "let ghost errs = this.errors;\n"
                   "proof { /* C07: no error is reported only if nothing but ignored tokens is left after the selection set */\n"
                   "        assert(this.errors@.len() == 0 ==> this.at_end()); }"),
